@@ -152,10 +152,63 @@ func init() {
 	regPS("(*github.com/prometheus/client_golang/prometheus.", "", nop)
 	regPS("github.com/prometheus/client_golang/prometheus.", "", nop)
 	reg("time.AfterFunc", func(in *Interp, c *Frame, fn *ssa.Function, a []Value) Value { return Ptr{} }) // never fires
-	reg("(*time.Timer).Stop", func(in *Interp, c *Frame, fn *ssa.Function, a []Value) Value { return in.st.False })
-	reg("(*time.Timer).Reset", func(in *Interp, c *Frame, fn *ssa.Function, a []Value) Value { return in.st.False })
-	reg("(*time.Ticker).Stop", nop)
-	reg("(*time.Ticker).Reset", nop)
+	vxCall := func(in *Interp, c *Frame, name string, a []Value) Value {
+		pkg := in.prog.ImportedPackage(strings.TrimSuffix(vxPkg, "."))
+		if pkg == nil || pkg.Func(name) == nil {
+			in.unsupported("vx." + name + " model missing")
+		}
+		return in.callFunction(pkg.Func(name), a, c)
+	}
+	reg("time.NewTimer", func(in *Interp, c *Frame, fn *ssa.Function, a []Value) Value { return vxCall(in, c, "ModelNewTimer", a) })
+	reg("time.NewTicker", func(in *Interp, c *Frame, fn *ssa.Function, a []Value) Value { return vxCall(in, c, "ModelNewTicker", a) })
+	reg("time.After", func(in *Interp, c *Frame, fn *ssa.Function, a []Value) Value { return vxCall(in, c, "ModelAfter", a) })
+	reg("time.Tick", func(in *Interp, c *Frame, fn *ssa.Function, a []Value) Value { return vxCall(in, c, "ModelTick", a) })
+	reg(vxPkg+"ArmTimer", func(in *Interp, c *Frame, fn *ssa.Function, a []Value) Value {
+		ch, _ := a[0].(*ChanObj)
+		if ch == nil {
+			in.unsupported("vx.ArmTimer: nil channel")
+		}
+		in.armTimer(ch, int64(in.concU64(a[1], "timer duration")), a[2].(*Term).IsTrue())
+		return nil
+	})
+	timerChan := func(in *Interp, recv Value) *ChanObj {
+		p, ok := recv.(Ptr)
+		if !ok || p.IsNil() {
+			return nil
+		}
+		ag, _ := in.load(p).(*Agg)
+		if ag == nil || len(ag.e) == 0 {
+			return nil
+		}
+		ch, _ := ag.e[0].(*ChanObj)
+		return ch
+	}
+	stop := func(in *Interp, c *Frame, fn *ssa.Function, a []Value) Value {
+		ch := timerChan(in, a[0])
+		was := ch != nil && in.disarmTimer(ch)
+		if fn.Signature.Results().Len() == 0 {
+			return nil
+		}
+		return in.st.Bool(was)
+	}
+	reset := func(periodic bool) Intercept {
+		return func(in *Interp, c *Frame, fn *ssa.Function, a []Value) Value {
+			ch := timerChan(in, a[0])
+			was := false
+			if ch != nil {
+				was = in.disarmTimer(ch)
+				in.armTimer(ch, int64(in.concU64(a[1], "timer duration")), periodic)
+			}
+			if fn.Signature.Results().Len() == 0 {
+				return nil
+			}
+			return in.st.Bool(was)
+		}
+	}
+	reg("(*time.Timer).Stop", stop)
+	reg("(*time.Timer).Reset", reset(false))
+	reg("(*time.Ticker).Stop", stop)
+	reg("(*time.Ticker).Reset", reset(true))
 	reg("time.Since", func(in *Interp, c *Frame, fn *ssa.Function, a []Value) Value { return in.st.Const(64, 0) })
 	reg("time.Now", func(in *Interp, c *Frame, fn *ssa.Function, a []Value) Value { return in.zero(fn.Signature.Results().At(0).Type()) })
 
